@@ -169,18 +169,18 @@ Definition race_state (f : id) (s : state) : Prop :=
     t1 <> t2 /\ nth_error (thr s) t1 = Some k1 /\ nth_error (thr s) t2 = Some k2 /\
     head k1 = Some (f, a1) /\ head k2 = Some (f, a2) /\ conflict a1 a2 = true.
 
-(* executable version over all locations, used by the wire model *)
-Definition head_conf (k1 k2 : code) : bool :=
+(* executable version over the locations selected by [flt], used by the wire model *)
+Definition head_conf (flt : id -> bool) (k1 k2 : code) : bool :=
   match head k1, head k2 with
-  | Some (f1, a1), Some (f2, a2) => eqb f1 f2 && conflict a1 a2
+  | Some (f1, a1), Some (f2, a2) => eqb f1 f2 && flt f1 && conflict a1 a2
   | _, _ => false
   end.
-Fixpoint raceb_l (l : list code) : bool :=
+Fixpoint raceb_l (flt : id -> bool) (l : list code) : bool :=
   match l with
   | [] => false
-  | k :: r => existsb (head_conf k) r || raceb_l r
+  | k :: r => existsb (head_conf flt k) r || raceb_l flt r
   end.
-Definition raceb (s : state) : bool := raceb_l (thr s).
+Definition raceb (flt : id -> bool) (s : state) : bool := raceb_l flt (thr s).
 
 (* ---------------------------------------------------------------- enabledness *)
 
@@ -314,3 +314,38 @@ Fixpoint dl (h : list res) (k : code) : bool :=
 End Code.
 
 Arguments CNil {id}.
+
+(* renaming of identifiers (instantiation of a summary at an object) *)
+Fixpoint cmap {A B : Type} (g : A -> B) (k : code A) : code B :=
+  match k with
+  | CNil => CNil
+  | CAcc f w k => CAcc (g f) w (cmap g k)
+  | CAtomic f k => CAtomic (g f) (cmap g k)
+  | CCrit l x body k => CCrit (g l) x (cmap g body) (cmap g k)
+  | COnce o body k => COnce (g o) (cmap g body) (cmap g k)
+  | CSpawn body k => CSpawn (cmap g body) (cmap g k)
+  | CRecv c k => CRecv (g c) (cmap g k)
+  | CClose c k => CClose (g c) (cmap g k)
+  | CUnlock l x k => CUnlock (g l) x (cmap g k)
+  | COnceExit o k => COnceExit (g o) (cmap g k)
+  end.
+
+(* every identifier occurring in k satisfies P *)
+Fixpoint allids {A : Type} (P : A -> bool) (k : code A) : bool :=
+  match k with
+  | CNil => true
+  | CAcc f _ k | CAtomic f k | CRecv f k | CClose f k | CUnlock f _ k | COnceExit f k => P f && allids P k
+  | CCrit l _ body k | COnce l body k => P l && allids P body && allids P k
+  | CSpawn body k => allids P body && allids P k
+  end.
+
+(* identifiers of a given kind occurring in k (for the checkers' candidate lists) *)
+Fixpoint ids_of {A : Type} (kind : nat) (k : code A) : list A :=
+  match k with
+  | CNil => []
+  | CAcc f _ k | CAtomic f k => (if Nat.eqb kind 0 then [f] else []) ++ ids_of kind k
+  | CCrit l _ body k => (if Nat.eqb kind 1 then [l] else []) ++ ids_of kind body ++ ids_of kind k
+  | COnce o body k => (if Nat.eqb kind 2 then [o] else []) ++ ids_of kind body ++ ids_of kind k
+  | CSpawn body k => ids_of kind body ++ ids_of kind k
+  | CRecv _ k | CClose _ k | CUnlock _ _ k | COnceExit _ k => ids_of kind k
+  end.
